@@ -426,6 +426,35 @@ Lemma sf_response_stats_cons : forall v e es,
      end) :: spec_response_stats v es.
 Proof. reflexivity. Qed.
 
+Lemma sf_response_stats_f_cons : forall sf v e es,
+  spec_response_stats_f sf v (e :: es) =
+    (if sf (em_dest e) then SFailedSend (em_dest e)
+     else match v with
+          | Google => SClassicResponse (em_dest e) (lenN (em_bytes e))
+          | RfcDraft13 => SRfcResponse (em_dest e) (lenN (em_bytes e))
+          end) :: spec_response_stats_f sf v es.
+Proof. reflexivity. Qed.
+
+Lemma sf_delivered_cons : forall sf e es,
+  delivered sf (e :: es) = (if sf (em_dest e) then [] else [e]) ++ delivered sf es.
+Proof. intros sf e es. unfold delivered. cbn [filter]. destruct (sf (em_dest e)); reflexivity. Qed.
+
+Lemma sf_delivered_app : forall sf a b, delivered sf (a ++ b) = delivered sf a ++ delivered sf b.
+Proof. intros sf a b. unfold delivered. apply filter_app. Qed.
+
+Lemma sf_delivered_all : forall sf es, (forall a, sf a = false) -> delivered sf es = es.
+Proof.
+  intros sf es Hs. unfold delivered. induction es as [|e es IH]; [reflexivity|].
+  cbn [filter]. rewrite Hs. cbn [negb]. f_equal. exact IH.
+Qed.
+
+Lemma sf_response_stats_f_all : forall sf v es, (forall a, sf a = false) ->
+  spec_response_stats_f sf v es = spec_response_stats v es.
+Proof.
+  intros sf v es Hs. unfold spec_response_stats_f, spec_response_stats. apply map_ext.
+  intro e. rewrite Hs. reflexivity.
+Qed.
+
 (* ------------------------------------------------------------------ *)
 (* the per-request loop *)
 
@@ -453,10 +482,11 @@ Section Respond.
                    (cert_bytes_of ed_pk ed_sign v lt ok) t (map sf_rq rest) idx coins = Ok bo
       /\ sf_coins_ok (fault_pct cfg) (bo_coins bo)
       /\ (fault_pct cfg = 0 ->
-          bo_sent bo = map (fun i => mkem (req_src (nth i rs req0))
-                                          (reply_bytes H ed_pk ed_sign v lt ok now rs i))
-                           (seq idx (length rest))
-          /\ bo_stats bo = spec_response_stats v (bo_sent bo)
+          let attempts := map (fun i => mkem (req_src (nth i rs req0))
+                                             (reply_bytes H ed_pk ed_sign v lt ok now rs i))
+                              (seq idx (length rest)) in
+          bo_sent bo = delivered (send_fails cfg) attempts
+          /\ bo_stats bo = spec_response_stats_f (send_fails cfg) v attempts
           /\ bo_coins bo = coins).
   Proof.
     intros cfg v lt ok now rs t Hpaths Hnonce Hlen.
@@ -503,14 +533,17 @@ Section Respond.
       + rewrite <- app_assoc. exact Hrs.
       + exact Hc''.
       + rewrite Hbo'.
+        assert (Hrb : fault_pct cfg = 0 -> bs = reply_bytes H ed_pk ed_sign v lt ok now rs idx).
+        { intro Hf. specialize (Hm0 Hf). subst m'. rewrite (Hbs0 Hsz). unfold reply_bytes.
+          rewrite Hm. reflexivity. }
         destruct (lvl_debug <=? log_level cfg)%nat; cbn [obind].
         all: eexists; split; [reflexivity|]; cbn [bo_sent bo_stats bo_coins].
         all: split; [exact Hbc|]; intro Hf; destruct (Hbf Hf) as [Hs [Hst Hco]].
-        all: specialize (Hm0 Hf); subst m'; rewrite (Hbs0 Hsz).
-        all: split; [|split].
-        all: try (rewrite Hco; apply Hc0, Hf).
-        all: try (rewrite sf_response_stats_cons; cbn [em_dest em_bytes]; rewrite <- Hst; reflexivity).
-        all: cbn [length seq map]; rewrite Hq; f_equal; [unfold reply_bytes; rewrite Hm; reflexivity|exact Hs].
+        all: cbv zeta; cbn [length seq map]; rewrite sf_delivered_cons, sf_response_stats_f_cons.
+        all: cbn [em_dest em_bytes]; rewrite Hq, <- (Hrb Hf).
+        all: split; [|split]; [ f_equal; exact Hs
+                              | destruct (send_fails cfg (req_src q)); f_equal; exact Hst
+                              | rewrite Hco; apply Hc0, Hf ].
   Qed.
 End Respond.
 
@@ -551,8 +584,8 @@ Section Send.
       /\ RInv ed_pk ed_sign v lt ok r'
       /\ sf_coins_ok (fault_pct cfg) (bo_coins bo)
       /\ (fault_pct cfg = 0 ->
-          bo_sent bo = spec_replies H ed_pk ed_sign v lt ok now rs
-          /\ bo_stats bo = spec_response_stats v (spec_replies H ed_pk ed_sign v lt ok now rs)
+          bo_sent bo = delivered (send_fails cfg) (spec_replies H ed_pk ed_sign v lt ok now rs)
+          /\ bo_stats bo = spec_response_stats_f (send_fails cfg) v (spec_replies H ed_pk ed_sign v lt ok now rs)
           /\ bo_coins bo = coins).
   Proof.
     intros cfg v lt ok now rs above coins Hab Hnonce Hlen Hcoins.
@@ -579,8 +612,7 @@ Section Send.
       eexists. eexists. split; [reflexivity|]. split; [|split; [exact Hbc|]].
       + unfold RInv. cbn [r_version r_online_seed r_cert_bytes r_merkle]. repeat split; assumption.
       + intro Hf. destruct (Hbf Hf) as [Hs [Hst Hco]].
-        assert (Hs' : bo_sent bo = spec_replies H ed_pk ed_sign v lt ok now rs) by exact Hs.
-        rewrite <- Hs'. repeat split; assumption.
+        split; [exact Hs|]. split; [exact Hst|exact Hco].
   Qed.
 End Send.
 
@@ -640,8 +672,8 @@ Section Batch.
       /\ SInv H ed_pk ed_sign cfg lt oi oc s'
       /\ sf_coins_ok (fault_pct cfg) coins'
       /\ (fault_pct cfg = 0 ->
-          so_sent out = spec_batch_sent H ed_pk ed_sign srv lt oi oc now ds
-          /\ so_stats out = spec_batch_stats H ed_pk ed_sign srv lt oi oc now ds
+          so_sent out = spec_batch_sent_f H ed_pk ed_sign (send_fails cfg) srv lt oi oc now ds
+          /\ so_stats out = spec_batch_stats_f H ed_pk ed_sign (send_fails cfg) srv lt oi oc now ds
           /\ coins' = coins).
   Proof.
     intros cfg lt oi oc s ds now coins HS Hlen Hcoins srv.
@@ -679,19 +711,21 @@ Section Batch.
     eexists. eexists. eexists. split; [reflexivity|]. split; [|split; [exact Hco2|]].
     - unfold SInv. cbn [s_cfg s_srv_value s_ietf s_classic]. split; [reflexivity|split; [reflexivity|split; assumption]].
     - intro Hf. destruct (Hf1 Hf) as [Ha1 [Hb1 Hc1']]. destruct (Hf2 Hf) as [Ha2 [Hb2 Hc2']].
-      cbn [so_sent so_stats]. unfold spec_batch_sent, spec_batch_stats.
-      fold ai ac. rewrite Ha1, Ha2, Hb1, Hb2. repeat split.
+      cbn [so_sent so_stats]. unfold spec_batch_sent_f, spec_batch_stats_f, spec_batch_sent.
+      fold ai ac. rewrite sf_delivered_app, Ha1, Ha2, Hb1, Hb2. repeat split.
       rewrite Hc2'. exact Hc1'.
   Qed.
 End Batch.
 
 Lemma one_batch_spec : forall H ed_pk ed_sign, goal_classify -> goal_one_batch H ed_pk ed_sign.
 Proof.
-  intros H ed_pk ed_sign Hcls HL HPk HSig cfg lt oi oc s ds now coins HS Hf Hlen srv.
+  intros H ed_pk ed_sign Hcls HL HPk HSig cfg lt oi oc s ds now coins HS Hf Hok Hlen srv.
   destruct (sf_one_batch H ed_pk ed_sign HL HPk HSig Hcls cfg lt oi oc s ds now coins HS Hlen
               (or_introl Hf)) as [s' [[sent stats lg] [coins' [Hob [HS' [_ Hout]]]]]].
   destruct (Hout Hf) as [Ha [Hb Hc]]. cbn [so_sent so_stats] in Ha, Hb. subst sent stats coins'.
-  exists s', lg. split; [exact Hob|exact HS'].
+  exists s', lg. split; [|exact HS']. rewrite Hob. fold srv.
+  unfold spec_batch_sent_f, spec_batch_stats_f, spec_batch_stats.
+  rewrite (sf_delivered_all _ _ Hok), !(sf_response_stats_f_all _ _ _ Hok). reflexivity.
 Qed.
 Print Assumptions one_batch_spec.
 
@@ -718,8 +752,8 @@ Section Drain.
         drain H ed_sign fuel s queue clk k coins = Ok (s', out)
         /\ SInv H ed_pk ed_sign cfg lt oi oc s'
         /\ (fault_pct cfg = 0 ->
-            so_sent out = spec_drain_sent H ed_pk ed_sign fuel n srv lt oi oc clk k queue
-            /\ so_stats out = spec_drain_stats H ed_pk ed_sign fuel n srv lt oi oc clk k queue).
+            so_sent out = spec_drain_sent_f H ed_pk ed_sign (send_fails cfg) fuel n srv lt oi oc clk k queue
+            /\ so_stats out = spec_drain_stats_f H ed_pk ed_sign (send_fails cfg) fuel n srv lt oi oc clk k queue).
   Proof.
     intros cfg lt oi oc clk Hn1 Hn255 srv n.
     induction fuel as [|f IH]; intros s queue k coins HS Hfuel Hcoins; [lia|].
@@ -733,7 +767,7 @@ Section Drain.
     destruct (length queue <? n)%nat eqn:E.
     - exists s1, o1. split; [reflexivity|]. split; [exact HS1|].
       intro Hf. destruct (Hout1 Hf) as [Ha [Hb _]].
-      cbn [spec_drain_sent spec_drain_stats]. rewrite E, !app_nil_r. split; assumption.
+      cbn [spec_drain_sent_f spec_drain_stats_f]. rewrite E, !app_nil_r. split; assumption.
     - apply Nat.ltb_ge in E.
       destruct (IH s1 (skipn n queue) (S k) coins1 HS1) as [s2 [o2 [Hd [HS2 Hout2]]]].
       + rewrite skipn_length. lia.
@@ -741,21 +775,48 @@ Section Drain.
       + rewrite Hd. cbn [obind].
         eexists. eexists. split; [reflexivity|]. split; [exact HS2|].
         intro Hf. destruct (Hout1 Hf) as [Ha [Hb _]]. destruct (Hout2 Hf) as [Ha2 Hb2].
-        cbn [so_sent so_stats spec_drain_sent spec_drain_stats].
+        cbn [so_sent so_stats spec_drain_sent_f spec_drain_stats_f].
         replace (length queue <? n)%nat with false by (symmetry; apply Nat.ltb_ge; exact E).
         rewrite Ha, Hb, Ha2, Hb2. split; reflexivity.
   Qed.
 End Drain.
 
-Lemma drain_spec : forall H ed_pk ed_sign, goal_classify -> goal_drain H ed_pk ed_sign.
+Lemma drain_spec_f : forall H ed_pk ed_sign, goal_classify -> goal_drain_f H ed_pk ed_sign.
 Proof.
-  intros H ed_pk ed_sign Hcls HL HPk HSig cfg lt oi oc s queue clk coins HS Hf Hn1 Hn255 srv n.
+  intros H ed_pk ed_sign Hcls HL HPk HSig cfg lt oi oc s queue clk coins HS Hf Hn1 Hn255 srv n sf.
   unfold process_events.
   destruct (sf_drain H ed_pk ed_sign HL HPk HSig Hcls cfg lt oi oc clk Hn1 Hn255
               (S (length queue)) s queue 0%nat coins HS (Nat.lt_succ_diag_r _) (or_introl Hf))
     as [s' [[sent stats lg] [Hd [HS' Hout]]]].
   destruct (Hout Hf) as [Ha Hb]. cbn [so_sent so_stats] in Ha, Hb. subst sent stats.
   exists s', lg. split; [exact Hd|exact HS'].
+Qed.
+Print Assumptions drain_spec_f.
+
+Lemma sf_drain_sent_all : forall H ed_pk ed_sign sf, (forall a, sf a = false) ->
+  forall fuel n srv lt oi oc clk k queue,
+    spec_drain_sent_f H ed_pk ed_sign sf fuel n srv lt oi oc clk k queue
+    = spec_drain_sent H ed_pk ed_sign fuel n srv lt oi oc clk k queue
+    /\ spec_drain_stats_f H ed_pk ed_sign sf fuel n srv lt oi oc clk k queue
+      = spec_drain_stats H ed_pk ed_sign fuel n srv lt oi oc clk k queue.
+Proof.
+  intros H ed_pk ed_sign sf Hok fuel n srv lt oi oc clk.
+  induction fuel as [|f IH]; intros k queue; [split; reflexivity|].
+  cbn [spec_drain_sent_f spec_drain_stats_f spec_drain_sent spec_drain_stats].
+  unfold spec_batch_sent_f, spec_batch_stats_f, spec_batch_stats.
+  rewrite (sf_delivered_all _ _ Hok), !(sf_response_stats_f_all _ _ _ Hok).
+  destruct (length queue <? n)%nat; [split; reflexivity|].
+  destruct (IH (S k) (skipn n queue)) as [-> ->]. split; reflexivity.
+Qed.
+
+Lemma drain_spec : forall H ed_pk ed_sign, goal_classify -> goal_drain H ed_pk ed_sign.
+Proof.
+  intros H ed_pk ed_sign Hcls HL HPk HSig cfg lt oi oc s queue clk coins HS Hf Hok Hn1 Hn255 srv n.
+  destruct (drain_spec_f H ed_pk ed_sign Hcls HL HPk HSig cfg lt oi oc s queue clk coins HS Hf Hn1 Hn255)
+    as [s' [lg [Hd HS']]].
+  exists s', lg. split; [|exact HS']. rewrite Hd.
+  destruct (sf_drain_sent_all H ed_pk ed_sign (send_fails cfg) Hok (S (length queue)) (batch_size cfg)
+              (ltk_srv_value H ed_pk lt) lt oi oc clk 0%nat queue) as [-> ->]. reflexivity.
 Qed.
 Print Assumptions drain_spec.
 
